@@ -1,6 +1,13 @@
 use super::{
     Namespace,
-    structures::{RustType, complex::ComplexProps, element::ElementProps, simple::SimpleProps},
+    field::RustFieldType,
+    structures::{
+        RustType,
+        complex::ComplexProps,
+        element::{ElementProps, ElementType},
+        simple::SimpleProps,
+        xml_name_to_rust_name,
+    },
 };
 use crate::{
     error::{WriterError, WriterResult},
@@ -79,6 +86,21 @@ where
     fn write_xml(&self, writer: &mut W) -> WriterResult<()> {
         if self.rust_type == RustType::Ignore {
             return Ok(());
+        }
+
+        // an element whose type carries the element's own name is written without an alias (the
+        // alias would name itself). When that type lives in ANOTHER module - `<element name="Item"
+        // type="t:Item"/>` in a messages schema over a types schema - the alias is what makes
+        // `ref="m:Item"` resolve in this module
+        if let RustType::Element(props) = &self.rust_type {
+            if let ElementType::RustType(RustFieldType::Other(other)) = &props.element_type {
+                let own_module = self.in_namespace.as_ref().map(|ns| ns.rust_mod_name.as_str());
+                let rust_name = xml_name_to_rust_name(&props.xml_name);
+                if other.name == rust_name && other.module.is_some() && other.module.as_deref() != own_module {
+                    writeln!(writer, "pub type {rust_name} = {};", props.element_type_path())?;
+                    return Ok(());
+                }
+            }
         }
 
         self.rust_type.write_xml(writer)
